@@ -50,6 +50,7 @@ type LoopSpec struct {
 
 type CallsiteSpec struct {
 	Pattern  string
+	Assumes  []*Clause // "assume" clauses: taken for granted after the call (listed as assumptions); pre(e) = value before the call
 	Requires []*Clause
 	Updates  []*Clause
 	ViaGo    string // "" any, "go" only go, "sync" only non-go
@@ -343,6 +344,8 @@ func (db *SpecDB) LoadSpecFile(path, pkg string, assumed bool) error {
 				curLemma.Steps = append(curLemma.Steps, &LemmaStep{Kind: kw, Expr: c.Expr, Label: c.Label, Src: c.Src})
 			case curCS != nil && kw == "requires":
 				curCS.Requires = append(curCS.Requires, c)
+			case curCS != nil && kw == "assume":
+				curCS.Assumes = append(curCS.Assumes, c)
 			case cur != nil && kw == "requires":
 				cur.Requires = append(cur.Requires, c)
 			case cur != nil && kw == "ensures":
